@@ -1,3 +1,4 @@
+import Lean.Elab.Tactic
 import BareModel.ExprParse
 import BareModel.Gen.Regex
 import BareProofs.C02Lemmas
@@ -541,13 +542,14 @@ theorem argsLoop_good {pb : List Char → Res (Expr × List Char)} (hpb : ∀ t 
             have := (Seg.single hws hsp).append (hseg1.append hseg2)
             simpa [argTail, hargs, toksMore] using this
 
-theorem parseAtom_good (t : List Char) (e : Expr) (r : List Char) (h : parseAtom t = .ok (e, r)) : Good t e r := by
+theorem parseAtom_good (t : List Char) (e : Expr) (r : List Char) (hun : scanUnaryOp t = none)
+    (h : parseAtom t = .ok (e, r)) : Good t e r := by
   unfold parseAtom at h
   split at h
   · rename_i q r' hs
     simp only [Except.ok.injEq, Prod.mk.injEq] at h
     obtain ⟨rfl, rfl⟩ := h
-    obtain ⟨ws, body, ht, hws, hsp⟩ := scanNumber_spec hs
+    obtain ⟨ws, body, ht, hws, hsp⟩ := scanNumber_spec hun hs
     exact ⟨⟨ws ++ body, by rw [ht]; simp, by simpa [toks] using Seg.single hws hsp⟩, rfl, trivial⟩
   · split at h
     · rename_i s r' hs
@@ -586,7 +588,12 @@ theorem parseUnary_good : ∀ (fuel : Nat) (t : List Char) (e : Expr) (r : List 
     simp only [parseUnary] at h
     split at h
     · cases h
-    · exact parseAtom_good t e r h
+    · rename_i hcond
+      have hun : scanUnaryOp t = none := by
+        cases hu : scanUnaryOp t with
+        | none => rfl
+        | some x => simp [hu] at hcond
+      exact parseAtom_good t e r hun h
   | succ fuel ih =>
     intro t e r h
     simp only [parseUnary] at h
@@ -635,7 +642,8 @@ theorem parseUnary_good : ∀ (fuel : Nat) (t : List Char) (e : Expr) (r : List 
             refine ⟨⟨(ws ++ (name ++ (ws2 ++ ['(']))) ++ pre, by rw [ht, hat]; simp, ?_⟩, rfl, hinn⟩
             have := (Seg.single hws (Spell.call name ws2 hid hlen hws2)).append hseg
             simpa [toks, argTail] using this
-        · exact parseAtom_good t e r h
+        · rename_i hun _
+          exact parseAtom_good t e r hun h
 
 
 /-! ### failures: where they point, what they say, and that fuel never runs out -/
@@ -1057,42 +1065,59 @@ theorem accept_faithful (s : String) (e : Expr) (h : parseExpr s = .ok e) : Lexe
   rw [this, List.append_nil] at hws
   rw [hws]; exact hsp
 
-/-! ### non-vacuity at text level -/
+/-! ### non-vacuity at text level
+
+`kernel_rfl` closes `lhs = rhs` with the term `Eq.refl lhs` and leaves the definitional-equality check to the *kernel*
+(which evaluates the parser on the literal text in well under a second), instead of the elaborator's much slower
+unifier.  Nothing is trusted: a wrong right-hand side is rejected by the kernel when the `example` is added. -/
+
+open Lean Elab Tactic Meta in
+elab "kernel_rfl" : tactic => do
+  let g ← getMainGoal
+  let t ← instantiateMVars (← g.getType)
+  let some (_, lhs, _) := t.eq? | throwError "kernel_rfl: the goal is not an equation"
+  g.assign (← mkExpectedTypeHint (← mkEqRefl lhs) t)
 
 example : parseExpr "a + b * c ** d - e" =
-    .ok (.binary .sub (.binary .add (v "a") (.binary .mul (v "b") (.binary .pow (v "c") (v "d")))) (v "e")) := by rfl
+    .ok (.binary .sub (.binary .add (v "a") (.binary .mul (v "b") (.binary .pow (v "c") (v "d")))) (v "e")) := by kernel_rfl
 
 /-- unary binds tighter than `**`; parentheses override; a call, a string with an escape, a bracketed name, `1.5e+3` -/
-example : parseExpr "-a ** b" = .ok (.binary .pow (.unary .neg (v "a")) (v "b")) := by rfl
-example : parseExpr "(a + b) * c" = .ok (.binary .mul (.group (.binary .add (v "a") (v "b"))) (v "c")) := by rfl
+example : parseExpr "-a ** b" = .ok (.binary .pow (.unary .neg (v "a")) (v "b")) := by kernel_rfl
+example : parseExpr "(a + b) * c" = .ok (.binary .mul (.group (.binary .add (v "a") (v "b"))) (v "c")) := by kernel_rfl
 example : parseExpr " ff( 1.5e+3 ,'it\\'s', [x y] )\t" =
-    .ok (.function (.user "ff") [.number 1500, .string "it's", v "x y"]) := by rfl
-example : parseExpr "-5 + +5" = .ok (.binary .add (.unary .neg (.number 5)) (.number 5)) := by rfl
+    .ok (.function (.user "ff") [.number 1500, .string "it's", v "x y"]) := by kernel_rfl
+example : parseExpr "-5 + +5" = .ok (.binary .add (.unary .neg (.number 5)) (.number 5)) := by kernel_rfl
 
-/-- all 14 operators in one text -/
-example : parseExpr "a || b && c == d != e <= f < g >= h > i + j - k * l / m % n ** o" =
+/-- all 14 operators in one text (no whitespace at all) -/
+example : parseExpr "a||b&&c==d!=e<=f<g>=h>i+j-k*l/m%n**o" =
     .ok (.binary .or (v "a") (.binary .and (v "b") (.binary .ne (.binary .eq (v "c") (v "d"))
       (.binary .gt (.binary .ge (.binary .lt (.binary .le (v "e") (v "f")) (v "g")) (v "h"))
         (.binary .sub (.binary .add (v "i") (v "j"))
-          (.binary .mod (.binary .div (.binary .mul (v "k") (v "l")) (v "m")) (.binary .pow (v "n") (v "o")))))))) := by rfl
+          (.binary .mod (.binary .div (.binary .mul (v "k") (v "l")) (v "m")) (.binary .pow (v "n") (v "o")))))))) := by
+  kernel_rfl
 
-/-- the hypotheses of the theorems are inhabited: `accept_faithful`, `parse_deep_wf` on a nested text … -/
-example : Lexes "-(a + b) * ff(c, !d)".toList
-    (toks (.binary .mul (.unary .neg (.group (.binary .add (v "a") (v "b")))) (.function (.user "ff") [v "c", .unary .not (v "d")]))) :=
-  accept_faithful "-(a + b) * ff(c, !d)" _ (by rfl)
+/-- the hypotheses of the theorems are inhabited: `accept_faithful`, `parse_deep_wf`, `parse_uses_chain` on a nested text … -/
+private def nested : Expr :=
+  .binary .mul (.unary .neg (.group (.binary .add (v "a") (v "b")))) (.function (.user "ff") [v "c", .unary .not (v "d")])
 
-example : HWF (.binary .mul (.unary .neg (.group (.binary .add (v "a") (v "b")))) (.function (.user "ff") [v "c", .unary .not (v "d")])) :=
-  parse_deep_wf "-(a + b) * ff(c, !d)" _ (by rfl)
+private theorem nested_parses : parseExpr "-(a + b) * ff(c, !d)" = .ok nested := by kernel_rfl
+
+example : Lexes "-(a + b) * ff(c, !d)".toList (toks nested) := accept_faithful _ _ nested_parses
+example : HWF nested := parse_deep_wf _ _ nested_parses
+example : ∃ u0 ch, nested = parseChain u0 ch ∧ IsOperand u0 ∧ ∀ x ∈ ch, IsOperand x.2 := by
+  obtain ⟨rest, hb, _⟩ := (parseExpr_ok_iff _ _).mp nested_parses
+  obtain ⟨u0, _, ch, _, _, he, h0, hch, _⟩ := parse_uses_chain _ _ _ _ hb
+  exact ⟨u0, ch, he, h0, hch⟩
 
 /-- … and the rejections: trailing text, unbalanced parenthesis, a one-letter call, an operator without operand -/
-example : parseExpr "a b" = .error ⟨"Syntax error", 2⟩ := by rfl
-example : parseExpr "(a" = .error ⟨"Unmatched parenthesis", 1⟩ := by rfl
-example : parseExpr "f(x)" = .error ⟨"Syntax error", 2⟩ := by rfl
-example : parseExpr "a ** " = .error ⟨"Syntax error", 5⟩ := by rfl
-example : parseExpr "1e5" = .error ⟨"Syntax error", 2⟩ := by rfl
+example : parseExpr "a b" = .error ⟨"Syntax error", 2⟩ := by kernel_rfl
+example : parseExpr "(a" = .error ⟨"Unmatched parenthesis", 1⟩ := by kernel_rfl
+example : parseExpr "f(x)" = .error ⟨"Syntax error", 2⟩ := by kernel_rfl
+example : parseExpr "a ** " = .error ⟨"Syntax error", 5⟩ := by kernel_rfl
+example : parseExpr "1e5" = .error ⟨"Syntax error", 2⟩ := by kernel_rfl
 
 /-- the backtracking cases of the string / bracket patterns -/
-example : parseExpr "'abc\\'" = .ok (.string "abc\\") := by rfl
-example : parseExpr "[   ]" = .ok (v " ") := by rfl
+example : parseExpr "'abc\\'" = .ok (.string "abc\\") := by kernel_rfl
+example : parseExpr "[   ]" = .ok (v " ") := by kernel_rfl
 
 end C02
